@@ -8,6 +8,7 @@
 #include <stdarg.h>
 #include <string.h>
 #include <sys/stat.h>
+#include <sys/uio.h>
 #include <unistd.h>
 
 #include <algorithm>
@@ -1044,6 +1045,141 @@ int __wrap_poll(struct pollfd* pfds, nfds_t n, int timeout) {
   }
   vsim::ev("poll", n, ready);
   return ready;
+}
+
+// ---- further entry points into the same simulated kernel, so that an implementation that reaches it through
+// them (lseek, the *at family relative to AT_FDCWD or to a simulated directory descriptor, readv/writev,
+// ftruncate, ppoll) is judged on what it does, not on which call it uses
+
+int __wrap_unlink(const char* path);
+int __wrap_rmdir(const char* path);
+
+off_t __real_lseek(int, off_t, int);
+off_t __wrap_lseek(int fd, off_t off, int whence) {
+  if (!is_virtual(fd)) return __real_lseek(fd, off, whence);
+  OpenFile* of = live_fd(fd);
+  if (!of) return -1;
+  if (of->ino->kind != Kind::REG) {
+    g_world.calls.natural_errors++;
+    errno = ESPIPE;
+    return -1;
+  }
+  int64_t base = whence == SEEK_SET ? 0 : (whence == SEEK_CUR ? (int64_t)of->pos : (whence == SEEK_END ? (int64_t)(of->ino->sizeless ? 0 : of->ino->data.size()) : -1));
+  if (base < 0 || base + off < 0) {
+    errno = EINVAL;
+    return -1;
+  }
+  if (whence == SEEK_END && !of->ino->appended_after_size_query.empty()) {
+    of->ino->data += of->ino->appended_after_size_query;
+    of->ino->appended_after_size_query.clear();
+    VS_FAULT("file_grows_after_size_query");
+  }
+  of->pos = base + off;
+  vsim::ev("lseek", whence, of->pos);
+  return of->pos;
+}
+
+int __real_ftruncate(int, off_t);
+int __wrap_ftruncate(int fd, off_t len) {
+  if (!is_virtual(fd)) return __real_ftruncate(fd, len);
+  OpenFile* of = live_fd(fd);
+  if (!of) return -1;
+  if (of->ino->kind != Kind::REG || (of->flags & O_ACCMODE) == O_RDONLY || len < 0) {
+    errno = EINVAL;
+    return -1;
+  }
+  of->ino->data.resize(len);
+  vsim::ev("ftruncate", len);
+  return 0;
+}
+
+// path of `path` relative to directory descriptor `dirfd` ("" if that cannot be expressed in the simulation)
+static bool at_path(int dirfd, const char* path, std::string& out, bool& simulated) {
+  simulated = false;
+  if (!path) return false;
+  if (path[0] == '/' || dirfd == AT_FDCWD) {
+    out = path;
+    simulated = is_sim_path(path);
+    return true;
+  }
+  if (!is_virtual(dirfd)) return true; // a real directory descriptor: not ours
+  OpenFile* of = live_fd(dirfd);
+  if (!of) return false;
+  if (of->ino->kind != Kind::DIR) {
+    errno = ENOTDIR;
+    return false;
+  }
+  out = of->path + "/" + path;
+  simulated = true;
+  return true;
+}
+
+int __real_openat(int, const char*, int, ...);
+int __wrap_openat(int dirfd, const char* path, int flags, ...) {
+  mode_t mode = 0;
+  if (flags & O_CREAT) {
+    va_list va;
+    va_start(va, flags);
+    mode = va_arg(va, int);
+    va_end(va);
+  }
+  std::string p;
+  bool sim;
+  if (!at_path(dirfd, path, p, sim)) return -1;
+  if (!sim && !(path && !strcmp(path, "/dev/urandom"))) return __real_openat(dirfd, path, flags, mode);
+  return __wrap_open(p.c_str(), flags, mode);
+}
+
+int __real_fstatat(int, const char*, struct stat*, int);
+int __wrap_fstatat(int dirfd, const char* path, struct stat* st, int flags) {
+  if (path && !path[0] && (flags & AT_EMPTY_PATH) && is_virtual(dirfd)) return __wrap_fstat(dirfd, st);
+  std::string p;
+  bool sim;
+  if (!at_path(dirfd, path, p, sim)) return -1;
+  if (!sim) return __real_fstatat(dirfd, path, st, flags);
+  return stat_path(p.c_str(), st, !(flags & AT_SYMLINK_NOFOLLOW));
+}
+
+int __real_unlinkat(int, const char*, int);
+int __wrap_unlinkat(int dirfd, const char* path, int flags) {
+  std::string p;
+  bool sim;
+  if (!at_path(dirfd, path, p, sim)) return -1;
+  if (!sim) return __real_unlinkat(dirfd, path, flags);
+  return (flags & AT_REMOVEDIR) ? __wrap_rmdir(p.c_str()) : __wrap_unlink(p.c_str());
+}
+
+ssize_t __real_readv(int, const struct iovec*, int);
+ssize_t __wrap_readv(int fd, const struct iovec* iov, int n) {
+  if (!is_virtual(fd)) return __real_readv(fd, iov, n);
+  size_t total = 0;
+  for (int i = 0; i < n; i++) total += iov[i].iov_len;
+  std::string tmp(total, '\0');
+  ssize_t r = __wrap_read(fd, tmp.data(), total);
+  size_t off = 0;
+  for (int i = 0; i < n && r > 0 && off < (size_t)r; i++) {
+    size_t k = std::min(iov[i].iov_len, (size_t)r - off);
+    memcpy(iov[i].iov_base, tmp.data() + off, k);
+    off += k;
+  }
+  return r;
+}
+
+ssize_t __real_writev(int, const struct iovec*, int);
+ssize_t __wrap_writev(int fd, const struct iovec* iov, int n) {
+  if (!is_virtual(fd)) return __real_writev(fd, iov, n);
+  std::string tmp;
+  for (int i = 0; i < n; i++) tmp.append((const char*)iov[i].iov_base, iov[i].iov_len);
+  return __wrap_write(fd, tmp.data(), tmp.size());
+}
+
+int __real_ppoll(struct pollfd*, nfds_t, const struct timespec*, const sigset_t*);
+int __wrap_ppoll(struct pollfd* pfds, nfds_t n, const struct timespec* ts, const sigset_t* mask) {
+  bool any_virtual = false;
+  for (nfds_t i = 0; i < n; i++) any_virtual |= is_virtual(pfds[i].fd);
+  if (!any_virtual && !(n == 0 && g_world.own_empty_polls)) return __real_ppoll(pfds, n, ts, mask);
+  int ms = ts ? (int)(ts->tv_sec * 1000 + (ts->tv_nsec + 999999) / 1000000) : -1;
+  return __wrap_poll(pfds, n, ms);
 }
 
 static FakeDir* new_fake_dir(std::shared_ptr<Inode> n);
